@@ -192,7 +192,7 @@ func runC04(k *kernel.K) {
 	cl.c.Inject(append(head, cl.plan[:early]...))
 	cl.sent = early
 
-	prefixCheck := func() bool {
+	prefixCheck := func() {
 		if !bytes.HasPrefix(cl.plan, tg.recv) {
 			d := firstDiff(tg.recv, cl.plan)
 			k.Fail("C04.prefix", map[string]string{"dir": "client_to_target"}, "target received bytes that are not a prefix of what the client sent: offset %d got %s want %s", d, excerpt(tg.recv, d), excerpt(cl.plan, d))
@@ -201,9 +201,8 @@ func runC04(k *kernel.K) {
 			d := firstDiff(cl.recv, tg.plan)
 			k.Fail("C04.prefix", map[string]string{"dir": "target_to_client"}, "client received bytes that are not a prefix of what the target sent: offset %d got %s want %s", d, excerpt(cl.recv, d), excerpt(tg.plan, d))
 		}
-		return false
 	}
-	k.AddSettleHook(prefixCheck)
+	k.AddInvariant(prefixCheck)
 
 	if mode == "unreachable" {
 		k.Drain()
